@@ -594,10 +594,14 @@ def logging_cfg(draw, n_iter, cfg, heavy=True, excluded=None):
     return lg
 
 
+EXCLUDE_D1 = False  # repaired in /repo (fix: convergence plot of a joint model with sources and a single event); regression case kept
+EXCLUDE_D2 = True   # open: fitted mixture models hold float64 parameters (see known_findings.json, F64)
+
+
 def apply_known_exclusions(lg, cfg, excluded):
     """exclude the input classes of the known defects D1 / D2 by construction (counted)"""
     kw = cfg["kwargs"]
-    if cfg["kind"] == "joint" and kw.get("source_dimension", 0) >= 1 and lg.get("plot_periodicity") and not lg.get("plot_sourcewise"):
+    if EXCLUDE_D1 and cfg["kind"] == "joint" and kw.get("source_dimension", 0) >= 1 and lg.get("plot_periodicity") and not lg.get("plot_sourcewise"):
         lg["plot_sourcewise"] = True
         if excluded is not None:
             excluded.append("D1:joint+sources+plot_periodicity+not-sourcewise(remapped to sourcewise)")
@@ -1020,24 +1024,29 @@ def shards(tier: str, seed: int):
         n_parts = 3 if GRID_CFG[kk]["kind"] in ("joint", "mixture_logistic") else 2
         for part in range(n_parts):
             specs.append((MOD, "shard_grid", dict(kind_key=kk, part=part, n_parts=n_parts)))
-    n_fit = 8 if q else 80
+    # Hypothesis mutates earlier examples once a few have been generated (many near-duplicates of one large cohort):
+    # the thorough tier therefore uses many short shards with independent seeds rather than a few long ones
+    n_fit = 8 if q else 25
     fit_kinds = [("joint",), ("logistic", "linear", "joint"), ("joint", "shared_speed_logistic"), ("logistic", "mixture_logistic", "linear"), ("logistic",), ("linear",)]
     if not q:
-        fit_kinds = fit_kinds + fit_kinds
+        fit_kinds = fit_kinds * 6
     for k, kinds in enumerate(fit_kinds):
         specs.append((MOD, "shard_fit", dict(kinds=list(kinds), seed=seed, n_examples=n_fit, tier=tier, shard=k)))
-    for k in range(2 if q else 3):
-        specs.append((MOD, "shard_fresh", dict(seed=seed, n_examples=3 if q else 40, tier=tier, shard=k)))
-    n_p = 8 if q else 90
-    for k, algos in enumerate([("scipy_minimize",), ("mean_posterior",), ("mode_posterior",)] + ([] if q else [("mean_posterior", "mode_posterior")])):
+    for k in range(2 if q else 6):
+        specs.append((MOD, "shard_fresh", dict(seed=seed, n_examples=3 if q else 10, tier=tier, shard=k)))
+    n_p = 8 if q else 25
+    perso_algos = [("scipy_minimize",), ("mean_posterior",), ("mode_posterior",)]
+    if not q:
+        perso_algos = perso_algos * 4
+    for k, algos in enumerate(perso_algos):
         specs.append((MOD, "shard_perso", dict(algos=list(algos), kinds=["logistic", "linear", "joint"], seed=seed,
                                                n_examples=(n_p if algos != ("scipy_minimize",) else max(5, n_p // 2)), tier=tier, shard=k)))
-    for k in range(1 if q else 2):
-        specs.append((MOD, "shard_simulate", dict(seed=seed, n_examples=10 if q else 150, tier=tier, shard=k)))
+    for k in range(1 if q else 8):
+        specs.append((MOD, "shard_simulate", dict(seed=seed, n_examples=10 if q else 30, tier=tier, shard=k)))
     specs.append((MOD, "shard_invalid", dict(part=0, n_parts=1)))
     specs.append((MOD, "shard_known", dict()))
     if not q:  # thorough: the Hypothesis fit shards are the longest
-        specs.sort(key=lambda sp: 0 if sp[1] in ("shard_fit", "shard_fresh") else 1)
+        specs.sort(key=lambda sp: {"shard_fresh": 0, "shard_fit": 1, "shard_grid": 2}.get(sp[1], 3))
     return specs
 
 
